@@ -412,16 +412,17 @@ def parse(plain):
 _INFO = {}
 
 
-def check_render(env, case, exc, verb, utf8, ignore, ansi, simple, keep_caches=False, minimal=False):
+def check_render(env, case, exc, verb, utf8, ignore, ansi, simple, keep_caches=False, minimal=False, trace=None):
     from clikit.ui.components.exception_trace import ExceptionTrace
 
     if not keep_caches:
         _trace.clear_trace_caches()
     io = make_io(verb, utf8, ansi)
-    trace = ExceptionTrace(exc)
     pattern = {"none": None, "lib": "^" + re.escape(env.lib + os.sep), "nothing": "^/nonexistent-dir/"}[ignore]
-    if pattern:
-        trace.ignore_files_in(pattern)
+    if trace is None:
+        trace = ExceptionTrace(exc)
+        if pattern:
+            trace.ignore_files_in(pattern)
     frames = real_frames(exc)
 
     def bad(sig, what, expected=None, observed=None):
@@ -602,6 +603,8 @@ def cases(env, tier):
             yield ["nosrc", which, verb, utf8, ignore, ansi]
     for verb1, verb2, utf8, ansi, recreate in itertools.product(VERB, VERB, (True, False), (False, True), (False, True)):
         yield ["vanish", verb1, verb2, utf8, ansi, recreate]
+    for where, verb1, verb2, utf8a, utf8b, ansi in itertools.product(("app", "lib"), VERB, VERB, (True, False), (True, False), (False, True)):
+        yield ["rerender", where, verb1, verb2, utf8a, utf8b, ansi]
     for depth, explicit in itertools.product((1, 2, 3), (True, False)):
         for verb, utf8, ignore, ansi in itertools.product(VERB, (True, False), IGNORE, (False, True)):
             yield ["chain", explicit, depth, verb, utf8, ignore, ansi]
@@ -659,10 +662,30 @@ def run_vanish(env, case):
         _INFO.pop(path, None)
 
 
+def run_rerender(env, case):
+    """One ExceptionTrace object (with an ignore pattern that matches part of the stack) rendered twice, on two IOs of
+    different verbosity / UTF-8 support: each rendering is judged by the ordinary oracle for ITS io."""
+    from clikit.ui.components.exception_trace import ExceptionTrace
+    _, where, verb1, verb2, utf8a, utf8b, ansi = case
+    exc = raise_case(env, ["rec", where, "cycle2", 3])
+    _trace.clear_trace_caches()
+    trace = ExceptionTrace(exc)
+    trace.ignore_files_in("^" + re.escape(env.lib + os.sep))
+    v = check_render(env, case, exc, verb1, utf8a, "lib", ansi, False, keep_caches=True, trace=trace)
+    if v:
+        return v
+    v = check_render(env, case, exc, verb2, utf8b, "lib", ansi, False, keep_caches=True, trace=trace)
+    if v:
+        v["sig"] = "rerender:" + v["sig"]
+    return v
+
+
 def run_case(env, case):
     kind = case[0]
     if kind == "vanish":
         return run_vanish(env, case)
+    if kind == "rerender":
+        return run_rerender(env, case)
     if kind == "hl":
         v = check_highlighter(case[1])
         return None if v == "skipped" else v
